@@ -451,6 +451,66 @@ func (f *c11Fix) signList(k int, url, purpose string, bits []byte, issued, expir
 	return f.realSign(f.ctx, tmpl, f.kids[k])
 }
 
+// signListShaped signs a status list the way an EXTERNAL issuer may: with or without the optional members, and written
+// in any of the equivalent JSON forms (see c11ExtShape). Returns the document as served.
+func (f *c11Fix) signListShaped(k int, url, purpose string, bits []byte, sh c11ExtShape) ([]byte, error) {
+	now := time.Now()
+	issued := now.Add(-time.Minute)
+	if sh.Issued == "old" {
+		issued = now.Add(-90 * 24 * time.Hour)
+	}
+	id := ssi.MustParseURI(fmt.Sprintf("%s#%d", f.dids[k].String(), now.UnixNano()))
+	tmpl := vc.VerifiableCredential{
+		Context:      []ssi.URI{vc.VCContextV1URI(), revocation.StatusList2021ContextURI},
+		Type:         []ssi.URI{vc.VerifiableCredentialTypeV1URI(), ssi.MustParseURI(revocation.StatusList2021CredentialType)},
+		ID:           &id,
+		Issuer:       f.dids[k].URI(),
+		IssuanceDate: issued,
+		CredentialSubject: []any{revocation.StatusList2021CredentialSubject{
+			ID: url, Type: revocation.StatusList2021CredentialSubjectType, StatusPurpose: purpose, EncodedList: c11EncodeList(bits),
+		}},
+	}
+	switch sh.Exp {
+	case "none":
+	case "short":
+		e := now.Add(10 * time.Minute)
+		tmpl.ExpirationDate = &e
+	default:
+		e := now.Add(24 * time.Hour)
+		tmpl.ExpirationDate = &e
+	}
+	if sh.TypesRev {
+		tmpl.Type[0], tmpl.Type[1] = tmpl.Type[1], tmpl.Type[0]
+	}
+	if sh.NoID {
+		tmpl.ID = nil
+	}
+	cred, err := f.realSign(f.ctx, tmpl, f.kids[k])
+	if err != nil {
+		return nil, err
+	}
+	b, err := json.Marshal(cred)
+	if err != nil || !(sh.SubjectArray || sh.ProofArray) {
+		return b, err
+	}
+	var m map[string]json.RawMessage
+	if err := json.Unmarshal(b, &m); err != nil {
+		return nil, err
+	}
+	wrap := func(key string) {
+		if v := bytes.TrimSpace(m[key]); len(v) > 0 && v[0] == '{' {
+			m[key] = json.RawMessage("[" + string(v) + "]")
+		}
+	}
+	if sh.SubjectArray {
+		wrap("credentialSubject")
+	}
+	if sh.ProofArray {
+		wrap("proof")
+	}
+	return json.Marshal(m)
+}
+
 // signVC lets issuer k sign an arbitrary credential (a credential whose status entry the harness chose).
 func (f *c11Fix) signVC(k int, entry revocation.StatusList2021Entry, serial int) (*vc.VerifiableCredential, error) {
 	return f.signVCStatuses(k, []any{entry}, serial, false)
